@@ -7,6 +7,7 @@ CHECKS = {
     "C07": {"pkg": "checks/c07", "test": "TestC07", "level": "model_checking", "shards": 16},
     "C08": {"pkg": "checks/c08", "test": "TestC08", "level": "model_checking", "shards": 16},
     "C09": {"pkg": "checks/c09", "test": "TestC09", "level": "model_checking", "shards": 16, "budget_s": {"quick": 90, "thorough": 1500}},
+    "C10": {"pkg": "checks/c10", "test": "TestC10", "level": "model_checking", "shards": 16},
     "C11": {"pkg": "checks/c11", "test": "TestC11", "level": "model_checking", "shards": 16, "budget_s": {"quick": 100, "thorough": 1500}},
     "C12": {"pkg": "checks/c12", "test": "TestC12", "level": "exploration", "shards": 16},
     "C17": {"pkg": "checks/c17", "test": "TestC17", "level": "model_checking", "shards": 16, "gomaxprocs": 1},
